@@ -28,8 +28,8 @@ impl<F: Fam, const N: usize> Sut<F, N> {
     }
 }
 
-pub const OPS: [&str; 12] = [
-    "insert", "replace", "remove", "take", "retain", "clear", "drain", "into_iter", "extend", "fork", "iter_probe", "fmt_probe",
+pub const OPS: [&str; 13] = [
+    "insert", "replace", "remove", "take", "retain", "clear", "drain", "into_iter", "extend", "fork", "iter_probe", "fmt_probe", "adaptor",
 ];
 const O_INSERT: usize = 0;
 const O_REPLACE: usize = 1;
@@ -43,10 +43,11 @@ const O_EXTEND: usize = 8;
 const O_FORK: usize = 9;
 const O_ITER: usize = 10;
 const O_FMT: usize = 11;
+const O_ADAPT: usize = 12;
 
-pub fn weights_for(prop: &str) -> [u32; 17] {
+pub fn weights_for(prop: &str) -> [u32; 18] {
     //            ins rep rem tak ret clr drn con ext frk itr fmt
-    let mut w = [16, 8, 8, 6, 3, 1, 2, 1, 4, 1, 2, 1, 0, 0, 0, 0, 0];
+    let mut w = [16, 8, 8, 6, 3, 1, 2, 1, 4, 1, 2, 1, 2, 0, 0, 0, 0, 0];
     match prop {
         "C07" => {
             w[O_FORK] = 0;
@@ -59,16 +60,21 @@ pub fn weights_for(prop: &str) -> [u32; 17] {
             w[O_RETAIN] = 5;
             w[O_CLEAR] = 2;
             w[O_EXTEND] = 6;
+            w[O_ADAPT] = 8;
         }
         "C05" => {
             w[O_RETAIN] = 6;
             w[O_EXTEND] = 8;
             w[O_REPLACE] = 10;
         }
-        "C09" => w[O_ITER] = 30,
+        "C09" => {
+            w[O_ITER] = 30;
+            w[O_ADAPT] = 20;
+        }
         "C10" => {
             w[O_DRAIN] = 16;
             w[O_CONSUME] = 16;
+            w[O_ADAPT] = 16;
         }
         "C12" => {
             w[O_REPLACE] = 14;
@@ -184,13 +190,19 @@ impl<'a> Engine<'a> {
         fp.add(0xFFFF_0000 + op as u64);
         fp.add(u64::from(class));
         fp.add(aux);
-        let mutates = !matches!(op, O_ITER | O_FMT);
+        let mutates = !matches!(op, O_ITER | O_FMT | O_ADAPT);
         if !s.order.is_empty() || mutates {
             self.cx.rep.fps.add(fp.get());
         }
         self.cx.rep.evaluations += 1;
     }
     fn conservation<F: Fam>(&mut self, stored: usize, whr: &str) {
+        if let (Some(live), false) = (F::live_objects().map(|l| l - self.h.live_base), self.h.failed) {
+            let want = stored as i64 + self.h.leaked_ok as i64;
+            if live != want {
+                self.h.viol("C02", if live > want { "leak" } else { "destroyed-too-many" }, format!("{}: {} self-counting element objects are alive but the sets hold {} (harness leaked {})", whr, live, stored, self.h.leaked_ok));
+            }
+        }
         if !F::TRACKED || self.h.failed {
             return;
         }
@@ -235,7 +247,7 @@ impl<'a> Engine<'a> {
                 continue;
             }
             let ka = addr_of(k);
-            if !(ka >= range.0 && ka < range.1.max(range.0 + 1)) {
+            if !(ka >= range.0 && ka + std::mem::size_of::<F::K>() <= range.1) {
                 self.h.viol("C06", "ref-outside", format!("iter() reference {:#x} outside the container bytes {:#x?}", ka, range));
             }
             let class = k.class();
@@ -689,6 +701,81 @@ impl<'a> Engine<'a> {
         }
     }
 
+    /// Set::iter / Set::drain / Set::into_iter consumed through std adaptor and consumer methods
+    fn op_adaptor<F: Fam, const N: usize>(&mut self, s: &mut Sut<F, N>) {
+        use crate::common::{drive, STYLES};
+        let kind = self.rng.usize_below(4);
+        let kname = ["iter", "(&set).into_iter", "drain", "into_iter"][kind];
+        let style = 1 + self.rng.usize_below(STYLES.len() - 1);
+        let len = s.model.len();
+        let j = self.rng.usize_below(len + 2);
+        self.step("adaptor", || format!("Set::{}().{} j={}", kname, STYLES[style], j));
+        self.fp_step(s, O_ADAPT, (kind * 1000 + style * 50 + j) as u32, 0);
+        if !self.light { self.cx.rep.hit(&format!("adaptor:{}:{}", kname, STYLES[style])); }
+        let reference: Vec<(u32, u64)> = s.fr.get().iter().map(|k| (k.class(), if F::TRACKED { k.id() } else { 0 })).collect();
+        let prop = if kind < 2 { "C09" } else { "C10" };
+        let mut got: Vec<(u32, u64)> = Vec::new();
+        let positions: Vec<usize>;
+        let counted: Option<usize>;
+        let idk = |k: &F::K| { k.chk("adaptor element"); (k.class(), if F::TRACKED { k.id() } else { 0 }) };
+        match kind {
+            0 => {
+                let (items, pos, c) = drive(s.fr.get().iter(), style, j, len);
+                got.extend(items.iter().map(|k| idk(k)));
+                positions = pos; counted = c;
+            }
+            1 => {
+                let (items, pos, c) = drive(s.fr.get().into_iter(), style, j, len);
+                got.extend(items.iter().map(|k| idk(k)));
+                positions = pos; counted = c;
+            }
+            2 => {
+                let (items, pos, c) = drive(s.fr.get_mut().drain(), style, j, len);
+                got.extend(items.iter().map(idk));
+                positions = pos; counted = c;
+                drop(items);
+                s.model.clear();
+                let m = s.fr.get();
+                if m.len() != 0 || m.iter().next().is_some() {
+                    self.h.viol("C10", "drain-not-empty", format!("after Set::drain().{} the set is not empty: len() = {}", STYLES[style], m.len()));
+                    self.h.failed = true;
+                }
+            }
+            _ => {
+                s.model = Dict::new(N);
+                let set = s.fr.take();
+                let (items, pos, c) = drive(set.into_iter(), style, j, len);
+                got.extend(items.iter().map(idk));
+                positions = pos; counted = c;
+                s.fr.put(Set::new());
+                s.order.clear();
+            }
+        }
+        if let Some(c) = counted {
+            if c != len {
+                self.h.viol(prop, "adaptor-count", format!("Set::{}().count() = {} for {} elements", kname, c, len));
+            }
+            return;
+        }
+        if got.len() != positions.len() {
+            self.h.viol(prop, "adaptor-yield-count", format!("Set::{}().{} (j={}) on {} elements yielded {} items; next() semantics gives {}", kname, STYLES[style], j, len, got.len(), positions.len()));
+        }
+        if kind < 2 {
+            let want: Vec<(u32, u64)> = positions.iter().filter_map(|p| reference.get(*p)).copied().collect();
+            if got != want {
+                self.h.viol("C09", "adaptor-items", format!("Set::{}().{} (j={}) yielded {:?}; stepping with next() gives {:?}", kname, STYLES[style], j, got, want));
+            }
+        } else {
+            let mut used = vec![false; reference.len()];
+            for g in &got {
+                match reference.iter().enumerate().find(|(i, e)| !used[*i] && *e == g) {
+                    Some((i, _)) => used[i] = true,
+                    None => self.h.viol("C10", "adaptor-items", format!("Set::{}().{} yielded {:?}, which is not a not-yet-yielded element (repeat or phantom)", kname, STYLES[style], g)),
+                }
+            }
+        }
+    }
+
     fn op_fmt_probe<F: Fam, const N: usize>(&mut self, s: &mut Sut<F, N>) {
         let which = self.rng.usize_below(3);
         let names = ["set-debug", "set-alt-debug", "set-display"];
@@ -754,9 +841,21 @@ impl<'a> Engine<'a> {
         self.step("fork", || "clone()".into());
         self.fp_step(s, O_FORK, 0, 0);
         if !self.light { self.cx.rep.hit(&format!("clone:{}", fill_name(s.model.len(), N))); }
+        let cc0 = F::clone_counts();
         ledger::log_start();
         let c: Set<F::K, N> = s.fr.get().clone();
         let log = ledger::log_take();
+        if let (Some(a), Some(b)) = (cc0, F::clone_counts()) {
+            let n = s.model.len() as u64;
+            if b.0 - a.0 != n {
+                self.h.viol("C15", "clone-count", format!("Set::clone of {} elements called Clone::clone {} times", n, b.0 - a.0));
+            }
+            for k in c.iter() {
+                if s.fr.get().iter().any(|ok| ok.serial() == k.serial()) {
+                    self.h.viol("C15", "clone-bitwise-copy", format!("Set::clone: the copy's element of class {} carries the same serial as the original: duplicated without calling Clone::clone", k.class()));
+                }
+            }
+        }
         let mut model = Dict::new(N);
         if F::TRACKED {
             let mut kclones: Vec<(u64, u64)> = Vec::new();
@@ -791,7 +890,7 @@ impl<'a> Engine<'a> {
 
     fn one_op<F: Fam, const N: usize>(&mut self, suts: &mut Vec<Sut<F, N>>) {
         let ix = if suts.len() > 1 { self.rng.usize_below(suts.len()) } else { 0 };
-        let op = self.rng.weighted(&self.cfg.weights[..12]);
+        let op = self.rng.weighted(&self.cfg.weights[..13]);
         macro_rules! s { () => { &mut suts[ix] } }
         match op {
             O_INSERT => self.op_insert(s!(), false),
@@ -805,6 +904,7 @@ impl<'a> Engine<'a> {
             O_EXTEND => self.op_extend(s!()),
             O_ITER => self.op_iter_probe(s!()),
             O_FMT => self.op_fmt_probe(s!()),
+            O_ADAPT => self.op_adaptor(s!()),
             O_FORK => {
                 if suts.len() < 2 {
                     let t = self.op_fork(s!());
@@ -833,6 +933,7 @@ impl<'a> Engine<'a> {
 
     pub fn run_history<F: Fam, const N: usize>(&mut self, max_steps: usize) {
         ledger::reset();
+        self.h.live_base = F::live_objects().unwrap_or(0);
         let mut suts: Vec<Sut<F, N>> = vec![Sut::new()];
         self.sweep(&mut suts[0]);
         let steps = self.rng.length(8, max_steps);
@@ -882,7 +983,7 @@ pub fn required_rows(prop: &str) -> Vec<&'static str> {
         "C07" => vec!["insert", "replace", "remove", "take", "retain", "clear", "drain", "extend"],
         "C02" => vec!["insert", "replace", "remove", "take", "retain", "clear", "drain", "into_iter", "clone", "extend"],
         "C05" => vec!["insert", "replace", "remove", "retain", "extend"],
-        "C09" => vec!["set-iter"],
+        "C09" => vec!["set-iter", "adaptor:"],
         "C10" => vec!["drain", "into_iter"],
         "C12" => vec!["insert", "replace", "take", "extend"],
         "C15" => vec!["clone", "drop-copy"],
@@ -900,7 +1001,7 @@ pub fn history<F: Fam, const N: usize>(cx: &mut Ctx, hist: u64, mut rng: Rng, ma
         h: Hist::new(hist),
         rng,
         cfg,
-        universe: N as u32 + 3,
+        universe: if <F::K as KeyF>::norm(7) != 7 { 1 } else { N as u32 + 3 },
         light: false,
         focus: 1,
     };
